@@ -749,6 +749,8 @@ def run_shard(rec, seed, shard, tier):
     arm_env(rec, shard)
     if shard["i"] == 1:
         arm_pytest(rec)
+    if shard["i"] % 4 == 2:
+        real.error_formatting_probe(rec, "C19")
     if True:
         arm_config_update(rec, random.Random(f"{seed}/C19/{shard['i']}"))
     rec.sample({"switch": "config.update('jaxtyping_disable', 'TrUe') between decoration and call", "kind": "classmethod", "input": "ill_param"})
